@@ -235,9 +235,10 @@ Print Assumptions C01_forces_are_minus_gradient.
 (* ---- run-time modifications of the superposition (SuperposModel.v) ----------------------------------------------
    A state = live componentCoeff / componentExp / active flag of every component + the flags colvar::init computed
    once (linear, homogeneous, periodic, period).  Events: modifycvcs (coefficient and/or exponent of one component),
-   cvcflags.  No event refreshes the flags: after any history they are those of the initial parameters. *)
+   cvcflags.  modifycvcs recomputes the periodicity from the live components (update_periodicity, repair 21b0745b); no event
+   refreshes width, linear and homogeneous (vflags): after any history they are those of the initial parameters. *)
 Theorem C01_history_keeps_flags : forall (h : list (@event R)) (sts : list (@vstate R)),
-  map vflags (run_history h sts) = map vflags sts.
+  map vflags (run_history Rops h sts) = map vflags sts.
 Proof. exact history_keeps_flags. Qed.
 Print Assumptions C01_history_keeps_flags.
 (* For every initial superposition, every list of biases and EVERY history of modifications: the forces applied in the
